@@ -210,9 +210,19 @@ fn judge<T: Tier, R: Rep3<T>>(ctx: &mut Ctx, ax: [T; 3], ang: Rad<T>, cs: (T::M,
     }
 }
 
+/// angles add under composition about a common axis: R(a, k) * R(a, k2) = R(a, k + k2), both orders
+fn compose<R: Rep3<Ex>>(ctx: &mut Ctx, ax: [Ex; 3], k: i64, k2: i64) {
+    let (a, b) = (R::axis_angle(mk_v3(ax), Rad(Ex::int(k))), R::axis_angle(mk_v3(ax), Rad(Ex::int(k2))));
+    let want = model::axis_angle_mat(ax, ex::lattice_cs(k + k2));
+    eq_mc::<Ex, 3>(ctx, &key(&format!("compose/{}/angles-add", R::NAME)), a.mul(b).mat(), want, 1.0);
+    eq_mc::<Ex, 3>(ctx, &key(&format!("compose/{}/angles-add", R::NAME)), b.mul(a).mat(), want, 1.0);
+    // and the inverse is the rotation by the opposite angle
+    eq_mc::<Ex, 3>(ctx, &key(&format!("compose/{}/invert-is-opposite-angle", R::NAME)), a.inv().mat(), model::axis_angle_mat(ax, ex::lattice_cs(-k)), 1.0);
+}
+
 fn exact(rep: &mut Report) {
     type T = Ex;
-    let axes = alphabet::uv3(rep.thorough());
+    let axes = alphabet::uv3(true);
     for li in 0..3 {
         let lat = &ex::lattices()[li];
         let kmax = lat.reach().min(8) / 2; // so that code 2k is also on the lattice
@@ -240,6 +250,16 @@ fn exact(rep: &mut Report) {
                     ctx.branch("quaternion");
                     judge::<T, Quaternion<T>>(ctx, ax, Rad(T::int(k)), cs, cs2, theta, axis_index, 1.0);
                 }
+                for k2 in [1i64, -2, 3] {
+                    compose::<Matrix3<T>>(ctx, ax, k, k2);
+                    compose::<Matrix4<T>>(ctx, ax, k, k2);
+                    compose::<Basis3<T>>(ctx, ax, k, k2);
+                }
+                if k % 2 == 0 {
+                    for k2 in [2i64, -2, 4] {
+                        compose::<Quaternion<T>>(ctx, ax, k, k2);
+                    }
+                }
                 // 2-D
                 let want2 = model::rot2(cs);
                 same_slice(ctx, &key("from_angle/Matrix2"), &flat_m(m2(Matrix2::from_angle(Rad(T::int(k))))), &flat_m(want2));
@@ -261,9 +281,9 @@ fn exact(rep: &mut Report) {
 
 /// float tiers on non-lattice angles, in radians and in degrees
 fn floats<T: Tier + Dom<M = Sh>>(rep: &mut Report) {
-    let axes = alphabet::uv3(rep.thorough());
+    let axes = alphabet::uv3(true);
     let mut rads: Vec<f64> = vec![0.0, 1e-8, -1e-8, PI / 2.0, -PI / 2.0, PI, -PI, 1e3];
-    let jmax = rep.pick(8, 60);
+    let jmax = rep.pick(20, 100);
     for j in 1..=jmax {
         rads.push(0.37 * j as f64 * 20.0 / jmax as f64);
         rads.push(-0.37 * j as f64 * 20.0 / jmax as f64);
